@@ -344,8 +344,10 @@ def make_writer(ctx, route, counter):
     if route == "func":
         nrho = m["nrho"]
         dr, drho = cutoff / float(nr - 1), float(ctx.cutoff_rho) / float(nrho - 1)
-        f = {"setfl": lambda sink: P.writeSetFL(nrho, drho, nr, dr, eams, pots, sink, ["c1", "c2", "c3"]),
-             "setfl_fs": lambda sink: P.writeSetFLFinnisSinclair(nrho, drho, nr, dr, eams, pots, sink, ["c1", "c2", "c3"]),
+        # any number of comment strings: the file still has exactly three comment lines
+        comments = [[], ["c1"], ["c1", "c2", "c3"], ["c1", "c2", "c3", "c4", "c5"]][ctx.idx % 4]
+        f = {"setfl": lambda sink: P.writeSetFL(nrho, drho, nr, dr, eams, pots, sink, comments),
+             "setfl_fs": lambda sink: P.writeSetFLFinnisSinclair(nrho, drho, nr, dr, eams, pots, sink, comments),
              "DL_POLY_EAM": lambda sink: P.writeTABEAM(nrho, drho, nr, dr, eams, pots, sink, "title"),
              "DL_POLY_EAM_fs": lambda sink: P.writeTABEAMFinnisSinclair(nrho, drho, nr, dr, eams, pots, sink, "title"),
              "funcfl": lambda sink: P.writeFuncFL(nrho, drho, nr, dr, eams, pots, sink, "title")}
@@ -386,9 +388,11 @@ def execute(ctx, route, fail_at=0, spelling=None, workdir=None, bad=None, preexi
                 inp, outp = os.path.join(d, "in.ini"), os.path.join(d, "out.dat")
                 with open(inp, "w") as f:
                     f.write(text)
-                if preexisting is not None:
-                    with open(outp, "w") as f:
-                        f.write(preexisting)
+                # the named output file already exists and is LONGER than the new table: nothing of it may survive
+                if preexisting is None:
+                    preexisting = "stale line of an earlier, longer tabulation 1.0 2.0 3.0\n" * 4000
+                with open(outp, "w") as f:
+                    f.write(preexisting)
                 status, so, se = run_cli([inp, outp])
                 res["status"], res["stderr"] = status, se[-400:]
                 if status != 0:
